@@ -53,7 +53,14 @@ impl StringFormatter<'_> {
             {
                 if new_string_contents != tok.get_content() {
                     #[cfg(feature = "verif_hooks")]
-                    crate::verif::step("reindent_string", &[idx as i64]);
+                    crate::verif::step(
+                        "reindent_string",
+                        &[
+                            idx as i64,
+                            fmt.indentations_before as i64,
+                            fmt.continuations_before as i64,
+                        ],
+                    );
                     tok.set_content(new_string_contents);
                     changed = true
                 }
